@@ -822,7 +822,8 @@ func (s *TxStore) Rollback(tx mwdb.DBTransaction, height uint64) error {
 							})
 					} else {
 						if curHeight > 0 && readAddressHeight(addrVal) == curHeight {
-							err = deleteRawAddressRecord(nsAddresses, addrKey)
+							// first use is rolled back: the address stays listed, as unused
+							err = putRawAddressRecord(nsAddresses, addrKey, valueAddressRecord(addrRec))
 							if err != nil {
 								return err
 							}
@@ -1037,7 +1038,8 @@ func (s *TxStore) Rollback(tx mwdb.DBTransaction, height uint64) error {
 						})
 				} else {
 					if curHeight > 0 && readAddressHeight(addrVal) == curHeight {
-						err = deleteRawAddressRecord(nsAddresses, addrKey)
+						// first use is rolled back: the address stays listed, as unused
+						err = putRawAddressRecord(nsAddresses, addrKey, valueAddressRecord(addrRec))
 						if err != nil {
 							return err
 						}
